@@ -1186,6 +1186,14 @@ def ds_enabled(w, b):
     if cms:
         ops.append(("member_new_sequence", "c"))
         ops.append(("member_new_sequence", "A"))
+    # a component changes its own namespace (the data set's registry is not told)
+    if tls:
+        ops.append(("member_migrate", "tl", "ci"))
+        ops.append(("member_migrate", "tl", "pre"))
+        ops.append(("member_assign_reconstruct", "tl", "ci"))
+    if cms:
+        ops.append(("member_migrate", "cm", "ci"))
+        ops.append(("member_migrate", "cm", "pre"))
     return ops
 
 
@@ -1213,6 +1221,10 @@ def ds_site(op):
         return "DataSet.tree_lists[0].append"
     if k == "member_new_sequence":
         return "DataSet.char_matrices[0].new_sequence"
+    if k == "member_migrate":
+        return "DataSet.%s[0].migrate_taxon_namespace" % ("tree_lists" if op[1] == "tl" else "char_matrices")
+    if k == "member_assign_reconstruct":
+        return "DataSet.tree_lists[0].taxon_namespace=;reconstruct_taxon_namespace"
     raise ValueError(op)
 
 
@@ -1370,6 +1382,10 @@ def ds_apply(w, op, R):
             kw["attach_taxon_namespace"] = False
         t_cs = T.is_case_sensitive if T is not None else False
         t_mem = members(T) if T is not None else []
+        want_attach = kw.get("attach_taxon_namespace", True)
+        # argument pattern + prior mode: a different way of leaving a component outside gets a different key
+        pat = "DataSet.unify_taxon_namespaces(target=%s,attach=%s)|%s" % (
+            "given" if T is not None else "None", want_attach, "was-attached" if att0 is not None else "was-detached")
         collide = False
         for m, recs in pre_mats:
             labs = [r[1] for r in recs]
@@ -1397,7 +1413,10 @@ def ds_apply(w, op, R):
             if T is None:
                 T = (tls + cms)[0]._taxon_namespace
             if any(c._taxon_namespace is not T for c in tls + cms):
-                R.add("%s|component-not-in-unified-namespace" % site, "after unification a component is bound to another namespace object")
+                R.add("%s|component-not-in-unified-namespace" % pat,
+                      "after unification the components are not all bound to one namespace object%s: %s" % (
+                          " (the one passed)" if "taxon_namespace" in kw else "",
+                          [[x._label for x in c._taxon_namespace._taxa] for c in tls + cms]))
                 return
             _comp_closure(tls, cms, site, R)
             if R.fatal:
@@ -1429,8 +1448,15 @@ def ds_apply(w, op, R):
                               "case_sensitive_label_mapping=True (default) is ignored, labels that differ only in case were put on one taxon: %s" % R3.items[0][1],
                               fatal=False)
                 ns_conserved(T, t_mem, False, site, R)
-            if kw.get("attach_taxon_namespace", True) and ds.attached_taxon_namespace is not T:
-                R.add("%s|not-attached" % site, "attach_taxon_namespace=True but the unified namespace is not attached")
+            att = ds.attached_taxon_namespace
+            if att is not None and att is not T:
+                # known on the unchanged library only for attach=False on a data set that was attached before
+                R.add("%s|component-left-in-other-namespace" % pat,
+                      "after unification the data set is attached to a namespace object (%s) other than the one all its components "
+                      "were unified into (%s)" % ([x._label for x in att._taxa], [x._label for x in T._taxa]),
+                      fatal=not (att0 is not None and not want_attach))
+            elif want_attach and att is None:
+                R.add("%s|not-attached" % pat, "attach_taxon_namespace=True but no namespace is attached after the call")
             if not any(x is T for x in ds.taxon_namespaces):
                 w_count = getattr(w, "unlisted", 0)
                 w.unlisted = w_count + 1
@@ -1464,6 +1490,55 @@ def ds_apply(w, op, R):
             return
         tls, cms = w.comps()
         check_old_unchanged = False
+    elif k in ("member_migrate", "member_assign_reconstruct"):
+        check_old_unchanged = False
+        c = tls0[0] if op[1] == "tl" else cms0[0]
+        T = target_ns(op[2])
+        t_mem = members(T)
+        if op[1] == "tl":
+            pre_c = _cat(p for _t, p in [x for x in pre_trees if x[0] is c][0][1])
+        else:
+            recs = [x for x in pre_mats if x[0] is c][0][1]
+            if _collide(recs, T.is_case_sensitive):
+                expected = (dperror.TaxonNamespaceReconstructionError,)
+        if k == "member_migrate":
+            exc = call(lambda: c.migrate_taxon_namespace(T))
+        else:
+            def f():
+                c.taxon_namespace = T
+                c.reconstruct_taxon_namespace()
+            exc = call(f)
+        root = site if op[1] == "tl" else "CharacterMatrix.reconstruct_taxon_namespace(unify_taxa_by_label=True)"
+        if unexpected(root, exc, R, expected):
+            return
+        R.items[:] = [it for it in R.items if "missing-refusal" not in it[0]]
+        if exc is not None:
+            R2 = Rec()
+            closure_matrix(c, site, R2)
+            if R2.items:
+                R.add("%s|closure-broken-after-refusal" % root,
+                      "TaxonNamespaceReconstructionError was raised half-way and left the matrix outside its namespace: %s (entered through %s)" % (R2.items[0][1], site))
+            return
+        if c._taxon_namespace is not T:
+            R.add("%s|container-not-bound-to-target" % site, "the component is not bound to the requested namespace object")
+            return
+        if op[1] == "tl":
+            relate(pre_c, _cat(taxa_of(t) for t in c._trees), "unify", T.is_case_sensitive, set(id(o) for o, _l in t_mem), [l for _o, l in t_mem], site, R)
+        else:
+            al = malign(recs, c)
+            if al is None or len(c._taxon_sequence_map) != len(recs):
+                R.add("%s|sequence-silently-dropped" % site, "the matrix had %d sequences and has %d" % (len(recs), len(c._taxon_sequence_map)))
+            else:
+                relate(al[0], al[1], "unify", T.is_case_sensitive, set(id(o) for o, _l in t_mem), [l for _o, l in t_mem], site, R)
+        ns_conserved(T, t_mem, False, site, R)
+        # the other components are untouched
+        for tl, trs in pre_trees:
+            if tl is not c:
+                for t, p in trs:
+                    relate(p, taxa_of(t), "same", True, (), (), site + "|existing-component", R)
+        for m, recs2 in pre_mats:
+            if m is not c and [id(r[0]) for r in recs2] != [id(tx) for tx in m._taxon_sequence_map]:
+                R.add("%s|existing-component|matrix-keys-changed" % site, "sequence keys of an untouched matrix changed")
     else:
         raise ValueError("unknown DS op %r" % (op,))
     # -- state-level checks ---------------------------------------------------
@@ -1471,12 +1546,15 @@ def ds_apply(w, op, R):
     _comp_closure(tls, cms, site, R)
     if any(id(c) not in set(id(x) for x in tls + cms) for c in tls0 + cms0):
         R.add("%s|component-dropped" % site, "a component disappeared from the data set")
-    for c in _offenders(ds, tls, cms):
+    osite = site
+    if k == "attach":
+        osite = "%s(%s)|%s" % (site, "registered" if op[1] in ("first", "last") else "new", "was-attached" if att0 is not None else "was-detached")
+    for c in ([] if k in ("unify", "member_migrate", "member_assign_reconstruct") else _offenders(ds, tls, cms)):
         if id(c) in pre_off and ds.attached_taxon_namespace is att0:
             continue
         kind = "tree list" if isinstance(c, TreeList) else "character matrix"
         if id(c) in pre_ids:
-            R.add("%s|attached|existing-component-left-in-other-namespace" % site,
+            R.add("%s|existing-component-left-in-other-namespace" % (osite if k == "attach" else site + "|attached"),
                   "the data set is attached to a namespace, but a %s that was already a component stays bound to another namespace object" % kind,
                   fatal=False)
         else:
@@ -2227,7 +2305,7 @@ def nontrivial_op(layer, op, world):
     if layer == "TL":
         return k not in ("new_tree", "new_tree_foreign_ns", "read_foreign_ns", "update", "slice", "reconstruct")
     if layer == "DS":
-        return k in ("read", "add_tl", "add_cm", "new_tl", "new_cm")
+        return k in ("read", "add_tl", "add_cm", "new_tl", "new_cm")   # member_* operations need a component
     if layer == "CM":
         return k in ("from_dict", "other", "clone")
     return k not in ("read_foreign_ns",)
